@@ -193,6 +193,16 @@ def integrand(xs, ops):
 def point(n, salt=0):
     return [0.5 + 0.125 * ((3 * i + salt) % 11) for i in range(n)]
 
+def getters_repr(probes):
+    """canonical text of the values returned by the part getters (None = absent part)"""
+    def c(v):
+        if v is None:
+            return None
+        if isinstance(v, (list, tuple)):
+            return [c(a) for a in v]
+        return bits(v)
+    return [[c(g) for g in p] for p in probes]
+
 def nested_bits(v):
     if isinstance(v, (list, tuple)):
         return [nested_bits(a) for a in v]
@@ -237,13 +247,19 @@ def drivers(max_n):
             for n in range(1, 7):
                 x, y = point(m), point(n, 4)
                 types = []
+                seen = []
                 def h(xs, ys):
                     types.append(type(xs[0]).__name__)
-                    return integrand(list(xs) + list(ys), ops)
+                    res = integrand(list(xs) + list(ys), ops)
+                    # the part getters of the elements handed to the callable, and of values that
+                    # depend on x only, on y only and on both
+                    probes = [xs[0], ys[-1], xs[0] * xs[-1], ys[0] * 2.0, res]
+                    seen.append([[getattr(p, "value", None), getattr(p, "first_derivative", None), getattr(p, "second_derivative", None)] for p in probes])
+                    return res
                 def run_ph():
                     res = nd.partial_hessian(h, x, y)
                     emit({"kind": "driver", "name": "partial_hessian", "m": m, "n": n, "chain": ops, "x": [bits(v) for v in x], "y": [bits(v) for v in y], "result": nested_bits(res),
-                          "element_class": types[0]})
+                          "element_class": types[0], "getters": getters_repr(seen[0]) if seen else None})
                 attempt("partial_hessian", run_ph)
         x, y, z = 0.625, 1.375, 0.875
         attempt("second_partial_derivative", lambda: emit({"kind": "driver", "name": "second_partial_derivative", "chain": ops, "x": [bits(x), bits(y)],
